@@ -236,6 +236,41 @@ func (t *Slice) genAppendFunc(m *Module) string {
 		if_true = append(if_true, wat.NewInstAdd(wat.U32{}))
 		if_true = append(if_true, dest.EmitPop()...)
 
+		// y 可能和 x 共享底层数组(比如 append(s[:i+1], s[i:]...)):
+		// 目标在源之后时必须从最后一个元素开始向前复制, 否则会覆盖尚未读取的元素
+		step := NewLocal("step", t._u32)
+		f.Locals = append(f.Locals, step)
+		if_true = append(if_true, item_size.EmitPush()...)
+		if_true = append(if_true, step.EmitPop()...)
+		{
+			var backward []wat.Inst
+			// off = (y_len-1) * item_size; src += off; dest += off; step = -item_size
+			for _, ptr := range []Value{src, dest} {
+				backward = append(backward, ptr.EmitPush()...)
+				backward = append(backward, y_len.EmitPush()...)
+				backward = append(backward, NewConst("1", t._u32).EmitPush()...)
+				backward = append(backward, wat.NewInstSub(wat.U32{}))
+				backward = append(backward, item_size.EmitPush()...)
+				backward = append(backward, wat.NewInstMul(wat.U32{}))
+				backward = append(backward, wat.NewInstAdd(wat.U32{}))
+				backward = append(backward, ptr.EmitPop()...)
+			}
+			backward = append(backward, NewConst("0", t._u32).EmitPush()...)
+			backward = append(backward, item_size.EmitPush()...)
+			backward = append(backward, wat.NewInstSub(wat.U32{}))
+			backward = append(backward, step.EmitPop()...)
+
+			// if dest > src && y_len != 0
+			if_true = append(if_true, dest.EmitPush()...)
+			if_true = append(if_true, src.EmitPush()...)
+			if_true = append(if_true, wat.NewInstGt(wat.U32{}))
+			if_true = append(if_true, y_len.EmitPush()...)
+			if_true = append(if_true, NewConst("0", t._u32).EmitPush()...)
+			if_true = append(if_true, wat.NewInstNe(wat.U32{}))
+			if_true = append(if_true, wat.NewInstAnd(wat.I32{}))
+			if_true = append(if_true, wat.NewInstIf(backward, nil, nil))
+		}
+
 		block := wat.NewInstBlock("block1")
 		loop := wat.NewInstLoop("loop1")
 		{
@@ -249,12 +284,12 @@ func (t *Slice) genAppendFunc(m *Module) string {
 			loop.Insts = append(loop.Insts, item.emitStoreToAddr(dest, 0)...)
 
 			loop.Insts = append(loop.Insts, src.EmitPush()...)
-			loop.Insts = append(loop.Insts, item_size.EmitPush()...)
+			loop.Insts = append(loop.Insts, step.EmitPush()...)
 			loop.Insts = append(loop.Insts, wat.NewInstAdd(wat.U32{}))
 			loop.Insts = append(loop.Insts, src.EmitPop()...)
 
 			loop.Insts = append(loop.Insts, dest.EmitPush()...)
-			loop.Insts = append(loop.Insts, item_size.EmitPush()...)
+			loop.Insts = append(loop.Insts, step.EmitPush()...)
 			loop.Insts = append(loop.Insts, wat.NewInstAdd(wat.U32{}))
 			loop.Insts = append(loop.Insts, dest.EmitPop()...)
 
